@@ -164,6 +164,9 @@ def pick_err(rng, cid, kind, role, has_old, falsy_ok=False):
     if k == "inst":
         return {"inst": {"e": exc(400 + cid, rng.random() < 0.8, not (falsy_ok and rng.random() < 0.3))}}, None
     args = pick_args(rng, kind, role, has_old)
+    if rng.random() < 0.08:
+        # an error function declared with *varargs / **varkw: to the library these are parameter names like any other
+        args = args + [rng.choice(["varkw", "varargs"])]
     return {"fac": {"args": args}}, {"exc": {"e": exc(300 + cid, rng.random() < 0.8, not (falsy_ok and rng.random() < 0.3))}}
 
 
